@@ -14,6 +14,7 @@ import (
 	"os/exec"
 	"path/filepath"
 	"runtime"
+	"runtime/debug"
 	"sort"
 
 	"github.com/ontio/ontology/common"
@@ -245,6 +246,7 @@ func main() {
 		childMain(p)
 		return
 	}
+	debug.SetGCPercent(400) // allocation-heavy code under test (JSON hashing); fewer GC cycles
 	r := vf.NewRun("C30", "exploration",
 		"peer sets of 4..60 peers (8 stake shapes cycled: equal, zero, dominant, random, few-large, ties, float-rounding edges, total = ONT supply), K in 4..n, C in 1..(K-1)/3, L=K*2..16, contiguous/scattered indices; each set under 20 input orders + the production GetPeersConfig map-iteration path; distinct by (set digest, order kind, order)")
 	rng := vf.NewRNG(vf.Seed())
